@@ -64,6 +64,16 @@ SpanDefects(bytes, leaves, n, k) ==
 
 C13Tree(bytes, tree) == SpanDefects(bytes, Leaves(tree), tree, 0)
 
+\* ... and, under white-space skipping, what lies between two consecutive tokens of a tree is
+\* white space: a tree whose tokens skip other text does not locate its nodes in the input
+GapDefects(bytes, tree) ==
+  LET l == Leaves(tree)
+  IN {<<"text_skipped_between_tokens", l[k].e, l[k + 1].s>> :
+        k \in {j \in 1 .. (Len(l) - 1) :
+                 l[j].e <= l[j + 1].s /\ l[j + 1].s <= Len(bytes)
+                 /\ \E i \in (l[j].e + 1) .. l[j + 1].s : ~IsWsByte(bytes[i])}}
+C13TreeWs(bytes, tree, ws) == C13Tree(bytes, tree) \cup (IF ws THEN GapDefects(bytes, tree) ELSE {})
+
 (* ---- C14: losslessness of the generic tree ------------------------------ *)
 RECURSIVE FlatCat(_)
 FlatCat(seqs) == IF seqs = <<>> THEN <<>> ELSE Head(seqs) \o FlatCat(Tail(seqs))
